@@ -160,7 +160,7 @@ def tblU (j : Json) (k : String) : Except String (Nat → Nat → List String) :
 
 def parseCfg (j : Json) : Except String Cfg := do
   let ms ← jArr j "markets"
-  let markets ← ms.toList.mapM fun m => do pure (⟨← jIntArr m "idx", ← jBool m "open"⟩ : MarketCfg)
+  let markets ← ms.toList.mapM fun m => do pure (⟨← jIntArr m "idx", ← jBool m "open", (match jOpt m "sparse" with | some (.bool b) => b | _ => false)⟩ : MarketCfg)
   pure ⟨markets, ← jIntArr j "prices", ← jInt j "delta", ← jBool j "resample"⟩
 
 def runH : JHandler := fun j => do
